@@ -172,6 +172,10 @@ def mild_neighbours(rng, text, k):
         elif any(t in g for g in SPELL):
             g = next(g for g in SPELL if t in g)
             toks[i] = rng.choice(g) if x < 0.7 else rng.choice(rng.choice(SPELL))
+        elif x < 0.12 and len(toks) > 4:
+            # drop a short run of tokens (an entire statement, a body, a header part)
+            n_ = rng.randint(1, 5)
+            del toks[i:i + n_]
         elif t == ';':
             if x < 0.5:
                 del toks[i]
@@ -226,7 +230,8 @@ def explore(ctx, res, replay=None):
                 else:
                     f2[main] = neighbours(rng, files[main], rng.randint(1, 4))
                 inputs.append((f2, main, 'neighbour'))
-        for s in ('x := 1;', ';', 'x := 1 ; ; y := 2', 'PROGRAM f DO x0 := 1 END', 'PROGRAM f DO x0 := 1 END x := RUN f WITH END',
+        for s in ('LOOP x DO END', 'WHILE x != 0 DO END', 'PROGRAM f IN a DO END x0 := RUN f WITH 4 END', 'LOOP x DO x0 := x0 + 1; l: END',
+                  'LOOP x DO LOOP y DO END END', 'l: END', 'PROGRAM f DO END x := 1', 'x := 1; LOOP x DO END; y := 2', 'x := 1;', ';', 'x := 1 ; ; y := 2', 'PROGRAM f DO x0 := 1 END', 'PROGRAM f DO x0 := 1 END x := RUN f WITH END',
                   'PROGRAM f IN a OUT DO x := 1 END x := 1', 'x := RUN f WITH 1 END PROGRAM f IN a DO x0 := a END', 'x := 2147483646', 'x := 2147483647',
                   'IF x = 2147483647 THEN GOTO l; l: x := 1', 'x := x + 2147483647', 'x := y + 1 + 2', 'x := RUN __INC__ WITH y, 2 END',
                   'x := RUN __INC__ WITH 1, 2 END', 'x := RUN __DEC__ WITH y, z END', 'GOTO l', 'l: x := 1; GOTO l', 'WHILE x DO x := 1 END',
